@@ -252,3 +252,60 @@ def check_float_division(ck, rule, fn, small_names=None):
                                                              node.lineno),
               fn.loc(node), key='%s::float-division' % fn.qualname)
     return n
+
+
+# ====================================================================== witness policy
+# A failed symbolic identity is reported as a VIOLATION only together with a concrete integer input
+# at which the extracted normal forms (not the code) disagree with the recurrence; if the forms
+# differ syntactically but agree on the whole sample grid, the check cannot conclude (exit 2).
+GRID = {
+    'rate': [0, 1, -1, 2, -2, 3, -3, 5, -7, 1000, -1000, 2 ** 30, -(2 ** 30) + 1],
+    'accel': [0, 1, -1, 2, -2, 3, -3, 5, -5, 6, -7, 100, -101],
+    'jerk': [0, 1, -1, 5, -5, 6, -6, 7, -7, 12, -13],
+    'time': [1, 2, 3, 4, 5, 7, 40],
+    'accum': [0, 1, 2 ** 31 - 1, 2 ** 30, 12345, 2 ** 31 - 2],
+    'steps': [1, 2, 3, 7, -1, -2, -5, 50],
+}
+
+
+def _holds(val, op):
+    return {'<': val < 0, '<=': val <= 0, '>': val > 0, '>=': val >= 0, '==': val == 0,
+            '!=': val != 0}[op]
+
+
+def grid_points(names, limit=60000):
+    import itertools
+    lists = [GRID.get(n, [0, 1, -1, 2, 5]) for n in names]
+    total = 1
+    for l in lists:
+        total *= len(l)
+    # thin the longest lists until the product fits
+    while total > limit:
+        i = max(range(len(lists)), key=lambda k: len(lists[k]))
+        total //= len(lists[i])
+        lists[i] = lists[i][::2] if len(lists[i]) > 2 else lists[i][:1]
+        total *= len(lists[i])
+    for combo in itertools.product(*lists):
+        yield dict(zip(names, combo))
+
+
+def path_witness(got_items, conds, names, expected_at):
+    """Search the sample grid for an input that satisfies the path conditions `conds` [(E, op)]
+    and at which some got_items[k] differs from expected_at(point)[k].
+    Returns ('witness', point, k, got, want) | ('agree', n_points) | ('unevaluable', why)."""
+    n = 0
+    for pt in grid_points(names):
+        try:
+            if not all(_holds(e.evaluate(pt), op) for e, op in conds):
+                continue
+            want = expected_at(pt)
+            if want is None:
+                continue
+            n += 1
+            for k, g in enumerate(got_items):
+                gv = g.evaluate(pt)
+                if gv != want[k]:
+                    return ('witness', pt, k, gv, want[k])
+        except (KeyError, ZeroDivisionError, TypeError, AttributeError) as exc:
+            return ('unevaluable', '%s: %s' % (type(exc).__name__, exc))
+    return ('agree', n)
